@@ -71,6 +71,7 @@ func (pnf *PageNumberFinder) FindPagination(root *html.Node, pageURL *nurl.URL) 
 	url.Path = strings.TrimSuffix(url.Path, "/")
 	url.RawPath = url.Path
 	strPageURL := stringutil.UnescapedString(&url)
+	escPageURL := url.String() // page URLs of links are kept in their escaped form
 
 	// Relative links must be resolved against the URL as it was supplied: with the
 	// trailing slash trimmed, "3/" on ".../b/2/" would resolve to ".../b/3" instead
@@ -90,7 +91,7 @@ func (pnf *PageNumberFinder) FindPagination(root *html.Node, pageURL *nurl.URL) 
 	if pagination.NextPage == "" && nPageInfo > 0 {
 		for i := nPageInfo - 1; i >= 0; i-- {
 			currentInfo := paramInfo.AllPageInfo[i]
-			if currentInfo.URL != strPageURL {
+			if currentInfo.URL != strPageURL && currentInfo.URL != escPageURL {
 				pagination.PrevPage = currentInfo.URL
 				break
 			}
@@ -111,7 +112,7 @@ func (pnf *PageNumberFinder) FindPagination(root *html.Node, pageURL *nurl.URL) 
 
 		for i := nextPageIdx - 1; i >= 0; i-- {
 			currentURL := paramInfo.AllPageInfo[i].URL
-			if currentURL == "" || currentURL != strPageURL {
+			if currentURL == "" || (currentURL != strPageURL && currentURL != escPageURL) {
 				pagination.PrevPage = currentURL
 				break
 			}
